@@ -81,6 +81,7 @@ STRENGTHENED = {
  'C10_10': 'missed at first (the only `thread_safe=False` history ended with a bulk sync) -> histories in that store mode with rows written one by one only before the store is closed',
  'C14_10': 'missed at first (tolerances were declared before the algorithm was built) -> `worst-*-tolerances-declared-after-construction`: symbolic tolerances written into the problem after the algorithm and its evaluator exist',
  'C20_10': 'missed at first (every point kept the default stored precision 7) -> equality between points whose `features[\'precision\']` is 0, 2, 3, 10, 12 (equal and different on the two sides), both argument orders',
+ 'C05_11': 'missed at first (every sweep object ran once; the second sweep used a new SweepAlgorithm) -> the SAME sweep object runs again after the generator was given a new plan (other designs, one fewer)',
 }
 print('| seed | change (abridged) | needs | verdict of the check(s) on the patched tree | note |')
 print('|---|---|---|---|---|')
